@@ -2,6 +2,7 @@ package main
 
 import (
 	gocontext "context"
+	"encoding/json"
 	"errors"
 	"fmt"
 	"io"
@@ -120,6 +121,9 @@ func (c *scriptCtx) finish() {
 	}
 }
 
+type namedStr string
+type namedBytes []byte
+
 type chainRun struct {
 	events []*Sx
 	cancel func()
@@ -213,6 +217,25 @@ func scriptedHandler(cr **chainRun, i int, h *Sx) flamego.Handler {
 		shape += v.Tag() + ","
 	}
 	fast := h.Field("fast") != nil && h.Field("fast").Args()[0].Atom != "0"
+	named := h.Field("named") != nil && h.Field("named").Args()[0].Atom == "1"
+	if named { // the same shapes through named types: type X []byte (json.RawMessage), type S string
+		switch shape {
+		case "str,":
+			return func(c flamego.Context) namedStr { body(c); return namedStr(ret[0].Args()[0].Bytes()) }
+		case "bytes,":
+			return func(c flamego.Context) json.RawMessage { body(c); return json.RawMessage(mkBytes(ret[0].Args()[0])) }
+		case "int,bytes,":
+			return func(c flamego.Context) (int, namedBytes) {
+				body(c)
+				return ret[0].Args()[0].Int(), namedBytes(mkBytes(ret[1].Args()[0]))
+			}
+		case "bytes,err,":
+			return func(c flamego.Context) (json.RawMessage, error) {
+				body(c)
+				return json.RawMessage(mkBytes(ret[0].Args()[0])), mkErr(ret[1].Args()[0])
+			}
+		}
+	}
 	teapot := h.Field("fast") != nil && h.Field("fast").Args()[0].Atom == "2"
 	switch shape {
 	case "":
@@ -481,7 +504,7 @@ func genRet(rng *rand.Rand, rich bool) []*Sx {
 }
 
 func genHandler(rng *rand.Rand, maxNext int, allowPanic, allowCancel, richRet bool) *Sx {
-	return T("h", T("acts", genActs(rng, maxNext, allowPanic, allowCancel)...), T("ret", genRet(rng, richRet)...), T("fast", B(rng.Intn(2) == 0)))
+	return T("h", T("acts", genActs(rng, maxNext, allowPanic, allowCancel)...), T("ret", genRet(rng, richRet)...), T("fast", B(rng.Intn(2) == 0)), T("named", B(rng.Intn(4) == 0)))
 }
 
 func chainInput(rng *rand.Rand, mw, route []*Sx, groups [][]*Sx, action *Sx, reps int) *Sx {
